@@ -149,3 +149,9 @@ def run(ctx):
     r = ctx.rule('R05h', 'xor_reconstruct_one falls back to the full decoder with the complete erasure list')
     xorrules.reconstruct_fallback_rule(P, r)
     r.require_min(2)
+    from . import c01
+    rb = ctx.rule('R01b', 'fragments handed to the backends are 16-byte aligned (fresh allocation or alignment test passed)')
+    rc = ctx.rule('R01c', 'replacement copy of an unaligned fragment copies header + payload',
+                  'a short copy zeroes the tail of every realigned survivor: success with wrong bytes')
+    c01.rule_realign(ctx, P, rb, rc)
+    rb.require_min(5); rc.require_min(2)
